@@ -145,15 +145,18 @@ def proj_equal_err(x, y):
 
 
 def proj_sin_err(x, y):
-    """Row-wise sine of the angle between the lines spanned by x and y (linear in the error,
-    unlike proj_equal_err which is quadratic): |x ^ y| / (|x||y|)."""
+    """Row-wise chordal distance between the lines spanned by x and y: |x/|x| - u*y/|y|| with u the
+    unit scalar aligning them (= 2 sin(angle/2); linear in the error and accurate to machine
+    epsilon, unlike proj_equal_err which is quadratic).  NaN rows give NaN (never 'equal')."""
     x = np.asarray(x)
     y = np.asarray(y)
-    xx = np.sum(np.abs(x) ** 2, axis=-1)
-    yy = np.sum(np.abs(y) ** 2, axis=-1)
-    xy = np.abs(np.sum(x * np.conjugate(y), axis=-1)) ** 2
     with np.errstate(invalid="ignore", divide="ignore"):
-        return np.sqrt(np.maximum(1.0 - xy / (xx * yy), 0.0))
+        xn = x / np.sqrt(np.sum(np.abs(x) ** 2, axis=-1, keepdims=True))
+        yn = y / np.sqrt(np.sum(np.abs(y) ** 2, axis=-1, keepdims=True))
+        ip = np.sum(xn * np.conjugate(yn), axis=-1, keepdims=True)
+        mag = np.abs(ip)
+        u = np.where(mag > 0, ip / np.where(mag > 0, mag, 1), 1.0)
+        return np.sqrt(np.sum(np.abs(xn - u * yn) ** 2, axis=-1))
 
 
 def classify(x, margin=1e-9):
@@ -168,3 +171,47 @@ def angle_at(p, a, b):
     da, db, dc = dist_klein(p, a), dist_klein(p, b), dist_klein(a, b)
     c = (np.cosh(da) * np.cosh(db) - np.cosh(dc)) / (np.sinh(da) * np.sinh(db))
     return np.arccos(np.clip(c, -1.0, 1.0))
+
+
+def proj_diff(x, y):
+    """Row-wise projective difference without a square-root noise floor: both rows are scaled to
+    Euclidean length 1, the sign is aligned, and the largest coordinate difference is returned
+    (0 iff same projective point; linear in the error; NaN/inf rows give inf)."""
+    x = np.asarray(x, dtype=float)
+    y = np.asarray(y, dtype=float)
+    with np.errstate(invalid="ignore", divide="ignore"):
+        xh = x / np.sqrt(np.sum(x * x, axis=-1, keepdims=True))
+        yh = y / np.sqrt(np.sum(y * y, axis=-1, keepdims=True))
+        s = np.where(np.sum(xh * yh, axis=-1, keepdims=True) < 0, -1.0, 1.0)
+        d = np.max(np.abs(xh - s * yh), axis=-1)
+    return np.where(np.isfinite(d), d, np.inf)
+
+
+def future(x):
+    """Representative of the projective point x with non-negative time coordinate."""
+    x = np.asarray(x, dtype=float)
+    return np.where(x[..., :1] < 0, -x, x)
+
+
+def unit_hyperboloid(x):
+    """Future-pointing unit timelike representative of a timelike row vector."""
+    x = future(x)
+    return x / np.sqrt(-mink(x, x))[..., None]
+
+
+def geodesic_point(p, q, t):
+    """Point (hyperboloid coordinates) at signed distance t from p along the geodesic from p
+    towards q (p, q timelike rows, p != q)."""
+    P = unit_hyperboloid(p)
+    Q = unit_hyperboloid(q)
+    D = Q + mink(P, Q)[..., None] * P
+    D = D / np.sqrt(mink(D, D))[..., None]
+    return np.cosh(t) * P + np.sinh(t) * D
+
+
+def unit_direction(p, q):
+    """Unit tangent vector (spacelike row, Minkowski-orthogonal to p) at p pointing to q."""
+    P = unit_hyperboloid(p)
+    Q = unit_hyperboloid(q)
+    D = Q + mink(P, Q)[..., None] * P
+    return D / np.sqrt(mink(D, D))[..., None]
